@@ -20,13 +20,16 @@ Z3OLD = '/usr/bin/z3'
 class Engine(Interp, ExprMixin, StmtMixin, CallMixin, MethodMixin):
     def __init__(self, registry):
         Interp.__init__(self, registry)
-        self.ufuns = {}
+        from .interp import _SHARED
+        self.ufuns = _SHARED['ufuns']
         self.text_cache = {}
         self._pure = 0
         self._guards = []
         self.qcount = 0
         self.implicit_as_paths = False
         self.cur_fs = None
+        self.lemmas_used = set()
+        self.revealed = set()
         self.pure_modules = {'builtins', 'operator', 're', 'os', 'posixpath', 'typing', 'itertools', 'functools', 'collections', 'enum', 'string'}
         self.init_specials()
 
@@ -43,6 +46,7 @@ class Engine(Interp, ExprMixin, StmtMixin, CallMixin, MethodMixin):
         mod = src.import_module(c.file)
         self.cur_fs = fs
         self.cur_contract = c
+        self.revealed = set(c.reveal)
         self.implicit_as_paths = any(k in c.raises for k in ('IndexError', 'ValueError', 'KeyError', 'ZeroDivisionError', 'TypeError'))
         info = {'fs': fs, 'inputs': None, 'outcomes': []}
         names = self.contract_names_for(c, mod)
@@ -65,6 +69,8 @@ class Engine(Interp, ExprMixin, StmtMixin, CallMixin, MethodMixin):
             fpre.extra = dict(names)
             for txt in list(c.requires) + list(c.assumes):
                 p.assume(self.ev_text(txt, fpre))
+            for lname, subst in c.uses:
+                p.assume(self.lemma_instance(lname, subst, fpre), heavy=True)
             outcome = None
             try:
                 try:
@@ -121,6 +127,72 @@ class Engine(Interp, ExprMixin, StmtMixin, CallMixin, MethodMixin):
         info['paths'] = len(results)
         info['outcomes'] = [r for _, r in results]
         return info
+
+    def lemma_instance(self, lname, subst, fr):
+        """instance of a (separately proved) lemma at the given terms: requires => goal"""
+        lem = self.reg.lemmas[lname]
+        self.lemmas_used.add(lname)
+        env = {}
+        for v, S in lem.vars.items():
+            val = self.ev_text_value(subst[v], fr)
+            if z3.is_expr(val) or not is_sym(val):
+                try:
+                    val = self.zs.lift(val, self.zs.zsort(S))
+                except TypeError:
+                    pass
+            env[v] = val
+        f2 = Frame(None, env, fr.module, None, None)
+        f2.extra = dict(fr.extra)
+        pre = [self.ev_text(t, f2) for t in lem.requires]
+        goal = self.ev_text(lem.goal, f2)
+        return self.lor(self.lnot(self.land(*pre)), goal)
+
+    def ev_text_value(self, txt, fr):
+        node = ast.parse(txt.strip(), mode='eval').body
+        self._pure += 1
+        try:
+            return self.ev(node, fr)
+        finally:
+            self._pure -= 1
+
+    def gen_lemma(self, lem: api.Lemma):
+        """obligations of a lemma: well-founded induction on the clamped measure"""
+        p = Path([])
+        self.path = p
+        self.cur_fs = None
+        self.revealed = set(lem.reveal)
+        names = self.contract_names_for(None, None)
+        env = {v: self.zs.sym(S, v) for v, S in lem.vars.items()}
+        fr = Frame(None, env, None, None, None)
+        fr.extra = dict(names)
+        pc = [self.ev_text(t, fr) for t in lem.requires]
+        if lem.measure:
+            m0 = self.ev_text_value(lem.measure, fr)
+            m0 = z3.If(m0 < 0, 0, m0)
+        for sub in lem.ih:
+            env2 = dict(env)
+            for v, txt in sub.items():
+                env2[v] = self.ev_text_value(txt, fr)
+            f2 = Frame(None, env2, None, None, None)
+            f2.extra = dict(names)
+            m1 = self.ev_text_value(lem.measure, f2)
+            m1 = z3.If(m1 < 0, 0, m1)
+            pre = [self.ev_text(t, f2) for t in lem.requires]
+            inst = self.lor(self.lnot(self.land(*pre)), self.ev_text(lem.goal, f2))
+            pc.append(z3.Implies(m1 < m0, inst))
+        for lname, subst in lem.uses:
+            pc.append(self.lemma_instance(lname, subst, fr))
+        goal = self.ev_text(lem.goal, fr)
+        obls = []
+        pc = [x for x in pc if x is not True]
+        if lem.cases:
+            cs = [self.ev_text(t, fr) for t in lem.cases]
+            for i, cse in enumerate(cs):
+                obls.append(Obligation(f'case{i}', 'lemma', pc + [cse], goal, 0, '', lem.cases[i]))
+            obls.append(Obligation('cases-exhaustive', 'lemma', pc, z3.Or(*cs), 0, '', 'case split covers everything'))
+        else:
+            obls.append(Obligation('goal', 'lemma', pc, goal, 0, '', lem.goal))
+        return obls
 
     def frame_obligations(self, c, entry, live, fs):
         mods = set(c.modifies)
@@ -272,5 +344,33 @@ def verify_contract(registry, c, second=False):
         rec['obligations'].append(item)
     rec['assumptions'] = sorted(eng.assumptions)
     rec['callees'] = dict(eng.callees)
+    rec['lemmas_used'] = sorted(eng.lemmas_used)
+    rec['wall_s'] = round(time.time() - t0, 3)
+    return rec
+
+
+def verify_lemma(registry, lem, second=False):
+    t0 = time.time()
+    eng = Engine(registry)
+    rec = {'lemma': lem.name, 'prop': lem.prop, 'obligations': [], 'error': None, 'undecided': None, 'note': lem.note}
+    try:
+        obls = eng.gen_lemma(lem)
+    except Unsupported as ex:
+        rec['undecided'] = f'unsupported: {ex}'
+        return rec
+    except Exception:
+        rec['error'] = traceback.format_exc()
+        return rec
+    for o in obls:
+        r = discharge(o, second)
+        item = {'name': f'{lem.prop}/lemma.{lem.name}/{o.name}', 'kind': 'lemma', 'status': r['status'], 'backend': r['backend'],
+                'time_s': r['time_s'], 'note': o.note, 'size': sum(len(str(x)) for x in o.pc) + len(str(o.goal))}
+        if 'second' in r:
+            item['second'] = r['second']
+        if r['status'] == 'sat':
+            item['model'] = str(r['model'])[:3000]
+        rec['obligations'].append(item)
+    rec['lemmas_used'] = sorted(eng.lemmas_used)
+    rec['assumptions'] = sorted(eng.assumptions)
     rec['wall_s'] = round(time.time() - t0, 3)
     return rec
